@@ -15,6 +15,17 @@ func encodeXterm(key vaxis.Key, deckpam bool, decckm bool) string {
 	xtermMods := key.Modifiers & vaxis.ModShift
 	xtermMods |= key.Modifiers & vaxis.ModAlt
 	xtermMods |= key.Modifiers & vaxis.ModCtrl
+	if xtermMods == 0 && deckpam {
+		// keypad keys with a code of their own in application mode
+		if val, ok := applicationKeypad[key.Keycode]; ok {
+			return val
+		}
+	}
+	if twin, ok := keypadTwins[key.Keycode]; ok {
+		// every other keypad key without text is sent as the key of
+		// the same name on the main keyboard
+		key.Keycode = twin
+	}
 	if xtermMods == 0 {
 		// function keys
 		if val, ok := keymap[key.Keycode]; ok {
@@ -133,6 +144,24 @@ type keycode struct {
 	final  rune
 }
 
+var applicationKeypad = map[rune]string{
+	vaxis.KeyKeyPadEnter: "\x1BOM",
+}
+
+var keypadTwins = map[rune]rune{
+	vaxis.KeyKeyPadEnter:    vaxis.KeyEnter,
+	vaxis.KeyKeyPadLeft:     vaxis.KeyLeft,
+	vaxis.KeyKeyPadRight:    vaxis.KeyRight,
+	vaxis.KeyKeyPadUp:       vaxis.KeyUp,
+	vaxis.KeyKeyPadDown:     vaxis.KeyDown,
+	vaxis.KeyKeyPadPageUp:   vaxis.KeyPgUp,
+	vaxis.KeyKeyPadPageDown: vaxis.KeyPgDown,
+	vaxis.KeyKeyPadHome:     vaxis.KeyHome,
+	vaxis.KeyKeyPadEnd:      vaxis.KeyEnd,
+	vaxis.KeyKeyPadInsert:   vaxis.KeyInsert,
+	vaxis.KeyKeyPadDelete:   vaxis.KeyDelete,
+}
+
 var xtermKeymap = map[rune]keycode{
 	vaxis.KeyUp:     {1, 'A'},
 	vaxis.KeyDown:   {1, 'B'},
@@ -156,6 +185,8 @@ var xtermKeymap = map[rune]keycode{
 	vaxis.KeyF10:    {21, '~'},
 	vaxis.KeyF11:    {23, '~'},
 	vaxis.KeyF12:    {24, '~'},
+
+	vaxis.KeyKeyPadBegin: {1, 'E'},
 }
 
 var cursorKeysApplicationMode = map[rune]string{
@@ -194,6 +225,8 @@ var applicationKeymap = map[rune]string{
 }
 
 var keymap = map[rune]string{
+	vaxis.KeyKeyPadBegin: "\x1B[E",
+
 	vaxis.KeyF01: "\x1BOP",
 	vaxis.KeyF02: "\x1BOQ",
 	vaxis.KeyF03: "\x1BOR",
